@@ -237,9 +237,7 @@ def build_property(pid, timeout=1500):
     os.makedirs(CACHE, exist_ok=True)
     with open(os.path.join(CACHE, "make.lock"), "w") as lk:
         fcntl.flock(lk, fcntl.LOCK_EX)
-        if not os.path.exists(os.path.join(COQDIR, "Makefile")):
-            subprocess.run(["coq_makefile", "-f", "_CoqProject", "-o", "Makefile"], cwd=COQDIR,
-                           capture_output=True)
+        subprocess.run([os.path.join(VERIF, "tools", "mkcoqproject.sh")], capture_output=True)
         p = subprocess.run(["timeout", str(timeout), "make", "-j8", "Properties/%s.vo" % pid],
                            cwd=COQDIR, capture_output=True, text=True)
     return p.returncode == 0, p.stdout + p.stderr
